@@ -681,8 +681,11 @@ def run_in(chk, drv, model, emodel, root):
     chk.notes["partial"] = ("PARTIAL - data races are sampled under ThreadSanitizer (thorough tier), not proved; the handshake logic (any number of completer "
                             "threads, any interleaving) and the protocol automaton are proved; schedule independence of values is sampled on the implementation "
                             "and tied to the specification engine by the differential")
-    chk.notes["driver_limits"] = ("engine_driver's threads schedule draws completion delays from 0..1199 us (not configurable); the stress therefore uses chains "
-                                  "(one outstanding task: every engine wait is for the last completion) and many builds instead of zero delays")
+    chk.notes["driver_limits"] = ("engine_driver's threads schedule draws completion delays from 0..1199 us (not configurable, so 'delays of 0-50 us' cannot be requested); "
+                                  "the lost-wake-up hunt therefore uses fans of 24 racing completions (the engine re-enters its wait block after each one; a completion lost there "
+                                  "hangs build() when it was the last) in several driver processes in parallel. Calibration on a privately built mutant with the emptiness check "
+                                  "moved outside the mutex: about one hang per 2*10^4 builds, i.e. the thorough tier (%d builds in this run) finds it with high probability, the quick tier "
+                                  "does not; a variant without any re-check is found deterministically by the defer schedules" % hunt_builds)
     chk.assumptions = ["std::mutex / std::condition_variable behave as in Engine/Handshake.v: notify_one wakes the waiter if there is one and is otherwise lost; wait releases the mutex atomically and may wake spuriously",
                        "only the engine thread waits on finishedTaskInfosCondition; numOutstandingUnfinishedTasks is touched by the engine thread only",
                        "every task that was told inputsAvailable eventually calls taskIsComplete exactly once (client obligation)",
